@@ -136,6 +136,12 @@ impl Hx {
     }
     /// Observable event: goes into the trace hash compared across feature sets (C18)
     fn ev(&mut self, kind: u8, a: u64, b: u64) {
+        // After the Stakker is gone, when and whether leftovers are *dropped* differs per deferrer
+        // by documented design, so in matrix mode nothing after that point is part of the compared trace;
+        // that leftovers never *run* is enforced by the monitor rule ran-after-stakker-drop (C01, C18).
+        if self.matrix && self.mon.gone {
+            return;
+        }
         self.nev += 1;
         let mut h = self.hash ^ (kind as u64).wrapping_mul(0x9E3779B97F4A7C15);
         h = h.wrapping_mul(0x100000001b3) ^ a;
@@ -726,6 +732,21 @@ pub fn run_item(env: &mut Env, id: ItemId) {
 }
 
 pub fn run_item_fr(env: &mut Env, id: ItemId, fr: &mut Frame) {
+    if hx(|h| h.mon.gone) {
+        // executed by the later Stakker of the end-of-case flush: only whether it may run at all
+        // is checked; its body is not executed
+        let bag = hx(|h| {
+            h.tr(|| format!("> i{} runs in a later Stakker", id));
+            if !h.dead {
+                let r = h.mon.item_start_second(id);
+                h.chk(r);
+            }
+            h.info[id as usize].bag.take()
+        });
+        drop(bag);
+        let _ = fr;
+        return;
+    }
     let now_seen = env.now_hm();
     let (body, bag) = hx(|h| {
         let (k0, q0) = (h.mon.items[id as usize].kind, h.mon.items[id as usize].q);
@@ -764,6 +785,24 @@ pub fn run_item_fr(env: &mut Env, id: ItemId, fr: &mut Frame) {
 }
 
 fn run_anon(s: &mut Stakker, size: usize, align: usize, b0: u8) {
+    if hx(|h| h.mon.gone) {
+        hx(|h| {
+            if h.dead {
+                return;
+            }
+            let found = (0..h.info.len()).find(|i| {
+                h.info[*i].anon.map(|sh| SHAPES[sh as usize]) == Some((size, align)) && h.mon.items[*i].st == IState::Pending
+            });
+            match found {
+                Some(i) => {
+                    let r = h.mon.item_start_second(i as ItemId);
+                    h.chk(r);
+                }
+                None => h.viol(&["C01"], "order", "an id-less closure ran in a later Stakker but none is pending".to_string()),
+            }
+        });
+        return;
+    }
     // An id-less closure: it must be the next unprocessed main-queue entry
     let now_seen = hm_of(s.now());
     hx(|h| {
@@ -2074,13 +2113,7 @@ fn run_top(prog: &Prog) {
             }
             op => match st.as_mut() {
                 Some(s) => exec_op(&mut Env::Top(s), op, &mut bag, &mut fr),
-                None => {
-                    // deferring after the Stakker is gone is the documented exclusion, and where
-                    // such closures end up differs per deferrer: not generated in matrix mode
-                    if !hx(|h| h.matrix) {
-                        exec_op(&mut Env::NoCore, op, &mut bag, &mut fr)
-                    }
-                }
+                None => exec_op(&mut Env::NoCore, op, &mut bag, &mut fr),
             },
         }
     }
@@ -2106,8 +2139,13 @@ fn run_top(prog: &Prog) {
     drain();
     // closures deferred after the Stakker was gone are discarded by the next Stakker::new
     // (documented); they must be dropped exactly once and never run
+    hx(|h| h.mon.second_phase = true);
     for _ in 0..4 {
-        let s = Stakker::new(inst_hm(hx(|h| h.now_hm)));
+        let mut s = Stakker::new(inst_hm(hx(|h| h.now_hm)));
+        // a later Stakker on this thread must not execute what an earlier one left behind
+        if hx(|h| h.mon.second_run_safe()) {
+            s.run(inst_hm(hx(|h| h.now_hm)), false);
+        }
         drop(s);
         if hx(|h| h.gbag.is_empty()) {
             break;
